@@ -484,6 +484,20 @@ def run_j6(chk, P):
                 sorted(set(want.values()) - set(vals)), sorted(v for v in vals if vals.count(v) > 1 or v not in want.values())))
 
 
+def run_j7(chk, P):
+    """a handed-back job is never partial: shared with C05 (Q2/Q2b/Q4)"""
+    from . import c05
+    chk.rule_q2 = chk.rule('J7', 'single-job API hands the earliest job back only after a status >= COMPLETED test or complete_job() '
+                                 '(never a partial status)', floor=50)
+    chk.rule_q2b = chk.rule('J7b', 'burst API hands back only jobs that passed the COMPLETED test / completion', floor=50)
+    COMPLETED = P.enum('IMB_STATUS_COMPLETED')
+    for tu in P.variant_tus():
+        ha = handler_assignments(P, tu)
+        roles = {k: v[0] for k, v in ha.items() if k in c05.ROLE_FIELDS}
+        c05.run_q2(chk, P, tu, roles, COMPLETED)
+        c05.run_burst(chk, P, tu, roles, COMPLETED)
+
+
 def run(chk):
     P = cf.Program()
     chk.explanation = ('C side: every assignment whose target is storage inside an IMB_JOB reached through a pointer, in every '
@@ -496,4 +510,5 @@ def run(chk):
     run_j3(chk, P, sw)
     run_j4(chk, P)
     shared.rule_errno_target(chk, P, 'J5')
+    run_j7(chk, P)
     run_j6(chk, P)
